@@ -267,16 +267,22 @@ func emitDdefs(mode string, wire []byte, seen map[string]bool, do func(string) s
 	}
 }
 
+// modes: n = no dictionary, a:<app>, ta:<transport>:<app>; a transport id "<T>+c" is a separate instance of <T> that
+// additionally defines the custom header tag 10030 and the custom trailer tag 5050 (transport != application dictionary)
 func pickMode(r *rng) string {
 	app := appDicts[r.intn(len(appDicts))]
-	switch r.intn(3) {
+	switch r.intn(4) {
 	case 0:
 		return "n"
 	case 1:
 		return "a:" + app
+	case 2:
+		return "ta:" + transportFor(app) + "+c:" + app
 	}
 	return "ta:" + transportFor(app) + ":" + app
 }
+
+func modeCustom(mode string) bool { return strings.Contains(mode, "+c:") }
 
 func modeApp(mode string) string {
 	p := strings.Split(mode, ":")
@@ -346,6 +352,15 @@ func genWire(r *rng, o *out, do func(string) string) {
 	}
 	if r.chance(1, 4) {
 		tf = append(tf, kv{r.pick([]string{"93", "89"}), randVal(r)})
+	}
+	if modeCustom(mode) || r.chance(1, 10) { // user-defined transport tags (header / trailer only for a "+c" transport dictionary)
+		if r.chance(2, 3) {
+			hf = append(hf, kv{strconv.Itoa(customHeaderTag), randVal(r)})
+		}
+		if r.chance(2, 3) {
+			tf = append(tf, kv{strconv.Itoa(customTrailerTag), randVal(r)})
+		}
+		o.kind("wire.customtags")
 	}
 	fields := append([]kv{{"35", []byte(msgType)}}, hf...)
 	fields = append(fields, bf...)
@@ -584,10 +599,7 @@ func genDgrp(r *rng, o *out, do func(string) string, tier string) {
 		do(fmt.Sprintf("set b %d %s", t, hx(randVal(r))))
 	}
 	do("setgrp b " + inst.String())
-	mode := "a:" + app
-	if r.chance(1, 2) {
-		mode = "ta:" + transportFor(app) + ":" + app
-	}
+	mode := dgrpMode(r, app)
 	built := do("build")
 	seen := map[string]bool{}
 	if w := strings.Fields(built); len(w) > 1 && w[0] == "bytes" {
@@ -601,6 +613,9 @@ func genDgrp(r *rng, o *out, do func(string) string, tier string) {
 	}
 	do("has t 10")
 	do("rebuild")
+	if w := strings.Fields(built); len(w) > 1 && w[0] == "bytes" {
+		dgrpWireTail(r, o, do, mode, unhx(w[1]), g.fd.Tag(), tmpl, inTmpl, others, seen)
+	}
 	depth := 1
 	var dep func(items []tItem, d int)
 	dep = func(items []tItem, dd int) {
@@ -621,6 +636,231 @@ func genDgrp(r *rng, o *out, do func(string) string, tier string) {
 	o.kind("dgrp.depth" + strconv.Itoa(depth))
 	o.kind("dgrp." + last)
 	o.nontrivial(fmt.Sprintf("dgrp:%s:%s:%d:%d:%s", app, g.msgType, g.fd.Tag(), len(inst.entries), last))
+}
+
+func dgrpMode(r *rng, app string) string {
+	switch r.intn(3) {
+	case 0:
+		return "a:" + app
+	case 1:
+		return "ta:" + transportFor(app) + ":" + app
+	}
+	return "ta:" + transportFor(app) + "+c:" + app
+}
+
+// dgrpWireTail: the bytes of a built message that carries the dictionary group `gt` are parsed as a WIRE message (op `parse`,
+// so that the parse-side properties see dictionary groups), unchanged and with a header / trailer tag placed directly behind
+// the last member of the group: the standard ones (SenderSubID 50, SignatureLength 93) and, for a "+c" transport dictionary,
+// the user-defined ones (10030, 5050), which only the TRANSPORT dictionary classifies.
+func dgrpWireTail(r *rng, o *out, do func(string) string, mode string, wire []byte, gt int, tmpl []tItem, inTmpl map[int]bool,
+	others []int, seen map[string]bool) {
+	fs, ok := wireScan(wire)
+	if !ok || len(fs) < 4 {
+		return
+	}
+	begin := string(fs[0].val)
+	var mid []kv // 35 ... last field before 10
+	for _, f := range fs[2 : len(fs)-1] {
+		mid = append(mid, kv{f.tag, f.val})
+	}
+	// the group's field run: count field, then members while the tag belongs to the template
+	start, end := -1, -1
+	for i, f := range mid {
+		if f.tag == strconv.Itoa(gt) && start < 0 {
+			start, end = i, i
+			for j := i + 1; j < len(mid); j++ {
+				t, err := strconv.Atoi(mid[j].tag)
+				if err != nil || !inTmpl[t] {
+					break
+				}
+				end = j
+			}
+		}
+	}
+	probe := func(v []byte, kind string, extra ...string) {
+		emitDdefs(mode, v, seen, do)
+		res := do("parse " + mode + " " + hx(v))
+		o.kind("dwire." + kind + "." + strings.Fields(res)[0])
+		if !strings.HasPrefix(res, "ok") {
+			return
+		}
+		do(fmt.Sprintf("getgrp b %d %s", gt, tmplString(tmpl)))
+		for _, t := range others {
+			do(fmt.Sprintf("get b %d", t))
+		}
+		for _, e := range extra {
+			do(e)
+		}
+		do("bytes")
+	}
+	probe(wire, "asbuilt")
+	if start < 0 {
+		return
+	}
+	insertAfterGroup := func(f kv) []byte {
+		var fl []kv
+		fl = append(fl, mid[:end+1]...)
+		fl = append(fl, f)
+		fl = append(fl, mid[end+1:]...)
+		return wireEncode(begin, fl)
+	}
+	ht, tt := 50, 93
+	probe(insertAfterGroup(kv{strconv.Itoa(ht), randVal(r)}), "hdr-after-group", fmt.Sprintf("get h %d", ht), fmt.Sprintf("has b %d", ht))
+	probe(insertAfterGroup(kv{strconv.Itoa(tt), []byte("3")}), "trl-after-group", fmt.Sprintf("get t %d", tt), fmt.Sprintf("has b %d", tt))
+	// user-defined transport tags: header/trailer for a "+c" transport dictionary, plain body fields otherwise
+	probe(insertAfterGroup(kv{strconv.Itoa(customHeaderTag), randVal(r)}), "customhdr-after-group",
+		fmt.Sprintf("get h %d", customHeaderTag), fmt.Sprintf("has b %d", customHeaderTag))
+	probe(insertAfterGroup(kv{strconv.Itoa(customTrailerTag), randVal(r)}), "customtrl-after-group",
+		fmt.Sprintf("get t %d", customTrailerTag), fmt.Sprintf("has b %d", customTrailerTag))
+	if modeCustom(mode) {
+		o.kind("dwire.customdict")
+	}
+}
+
+// ------------------------------------------------------------------ dnest (dictionary groups with nested groups, densely nested)
+
+// genInstanceNest: every entry carries the delimiter; NESTED GROUP members are included with probability 4/5 and are never empty,
+// plain members with probability 1/6 — so that nested groups that are siblings in the dictionary come out back to back on the wire
+// (FIX44 NewOrderSingle 711: 457[..] directly followed by 887[..]), followed by further entries / members.
+func genInstanceNest(r *rng, tag int, tmpl []tItem, minCount, maxCount int) *gInst {
+	g := &gInst{tag: tag, tmpl: tmpl}
+	n := minCount + r.intn(maxCount-minCount+1)
+	for e := 0; e < n; e++ {
+		var fl []gFld
+		for i, it := range tmpl {
+			switch {
+			case i == 0 && !it.isGroup:
+				fl = append(fl, gFld{tag: it.tag, val: randVal(r)})
+			case it.isGroup:
+				if i == 0 || r.chance(4, 5) {
+					fl = append(fl, gFld{tag: it.tag, grp: genInstanceNest(r, it.tag, it.sub, 1, 2)})
+				}
+			default:
+				if r.chance(1, 6) {
+					fl = append(fl, gFld{tag: it.tag, val: randVal(r)})
+				}
+			}
+		}
+		for i := len(fl) - 1; i > 0; i-- {
+			j := r.intn(i + 1)
+			fl[i], fl[j] = fl[j], fl[i]
+		}
+		g.entries = append(g.entries, fl)
+	}
+	return g
+}
+
+// number of group items at the widest level of the template
+func maxSiblingGroups(tmpl []tItem) int {
+	n, best := 0, 0
+	for _, it := range tmpl {
+		if it.isGroup {
+			n++
+			if m := maxSiblingGroups(it.sub); m > best {
+				best = m
+			}
+		}
+	}
+	if n > best {
+		best = n
+	}
+	return best
+}
+
+type dnestEntry struct {
+	app string
+	g   dgroup
+}
+
+var dnestSib, dnestAny []dnestEntry
+var dnestCounter int
+
+func dnestInit() {
+	if dnestAny != nil {
+		return
+	}
+	for _, a := range appDicts {
+		for _, x := range dictGroups(a) {
+			switch k := maxSiblingGroups(tmplOfDef(x.fd.Fields)); {
+			case k >= 2:
+				dnestSib = append(dnestSib, dnestEntry{a, x})
+				dnestAny = append(dnestAny, dnestEntry{a, x})
+			case k == 1:
+				dnestAny = append(dnestAny, dnestEntry{a, x})
+			}
+		}
+	}
+}
+
+func genDnest(r *rng, o *out, do func(string) string, tier string) {
+	do("!label dnest")
+	dnestInit()
+	pool := dnestAny
+	if r.chance(2, 3) {
+		pool = dnestSib
+	}
+	e := pool[r.intn(len(pool))]
+	if tier == "thorough" { // all of them in turn
+		e = dnestAny[dnestCounter%len(dnestAny)]
+		dnestCounter++
+	}
+	app, g := e.app, e.g
+	d := dict(app)
+	mm := d.Messages[g.msgType]
+	tmpl := tmplOfDef(g.fd.Fields)
+	inst := genInstanceNest(r, g.fd.Tag(), tmpl, 1, 2)
+	inTmpl := map[int]bool{}
+	templateTags(tmpl, inTmpl)
+	do("new")
+	bs := map[string]string{"FIX40": "FIX.4.0", "FIX41": "FIX.4.1", "FIX42": "FIX.4.2", "FIX43": "FIX.4.3", "FIX44": "FIX.4.4"}[app]
+	if bs == "" {
+		bs = "FIXT.1.1"
+	}
+	do("set h 8 " + hx([]byte(bs)))
+	do("set h 35 " + hx([]byte(g.msgType)))
+	do("set h 49 " + hx([]byte("S")))
+	var others []int
+	keys := sortedKeys(mm.Fields)
+	for i, n := 0, r.intn(4); i < n; i++ {
+		t := keys[r.intn(len(keys))]
+		if r.chance(1, 4) {
+			t = 20000 + r.intn(1000)
+		} else if len(mm.Fields[t].Fields) > 0 {
+			continue
+		}
+		if quickfix.Tag(t).IsHeader() || quickfix.Tag(t).IsTrailer() || inTmpl[t] || t == g.fd.Tag() {
+			continue
+		}
+		if _, isH := d.Header.Fields[t]; isH {
+			continue
+		}
+		if _, isT := d.Trailer.Fields[t]; isT {
+			continue
+		}
+		others = append(others, t)
+		do(fmt.Sprintf("set b %d %s", t, hx(randVal(r))))
+	}
+	do("setgrp b " + inst.String())
+	mode := dgrpMode(r, app)
+	built := do("build")
+	seen := map[string]bool{}
+	w := strings.Fields(built)
+	if len(w) > 1 && w[0] == "bytes" {
+		emitDdefs(mode, unhx(w[1]), seen, do)
+	}
+	res := do("reparse " + mode)
+	o.kind("dnest.reparse." + strings.Fields(res)[0])
+	do(fmt.Sprintf("getgrp b %d %s", g.fd.Tag(), tmplString(tmpl)))
+	for _, t := range others {
+		do(fmt.Sprintf("get b %d", t))
+	}
+	do("has t 10")
+	do("rebuild")
+	if len(w) > 1 && w[0] == "bytes" {
+		dgrpWireTail(r, o, do, mode, unhx(w[1]), g.fd.Tag(), tmpl, inTmpl, others, seen)
+	}
+	o.kind(fmt.Sprintf("dnest.siblings%d", maxSiblingGroups(tmpl)))
+	o.nontrivial(fmt.Sprintf("dnest:%s:%s:%d:%d", app, g.msgType, g.fd.Tag(), len(inst.entries)))
 }
 
 // ------------------------------------------------------------------ junk (C09)
@@ -700,8 +940,10 @@ func genCodec(r *rng, tier string, idx int, o *out, do func(string) string) stri
 		return ""
 	}
 	switch idx % 10 {
-	case 0, 1, 2, 3:
+	case 0, 1, 2:
 		genProg(r, o, do)
+	case 3:
+		genDnest(r, o, do, tier)
 	case 4, 5:
 		genWire(r, o, do)
 	case 6, 7:
@@ -712,7 +954,7 @@ func genCodec(r *rng, tier string, idx int, o *out, do func(string) string) stri
 		if idx%20 == 9 {
 			genJunk(r, o, do)
 		} else {
-			genDgrp(r, o, do, tier)
+			genDnest(r, o, do, tier)
 		}
 	}
 	return ""
